@@ -101,6 +101,8 @@ pub fn rule_forms() -> Vec<(&'static str, &'static str)> {
         ("<A, B>", "::t::X<A, ::m::A, B>"),
         // identity-shaped with FEWER declared generics than the type has: the declared ones only
         ("<A>", "::t::X<A>"),
+        // the parameters occur ONLY nested in the target (the shape of the documented Static<MultiAddress<A, B>> rule)
+        ("<A, B>", "::t::Static<::t::Multi<A, B>>"),
     ]
 }
 
